@@ -1,7 +1,7 @@
 (* C08/Properties.v — property theorems only.  Each is closed by [exact lemma],
    pinned by [Check name : statement] and followed by [Print Assumptions]. *)
 From Coq Require Import Sorting.Sorted Sorting.Permutation.
-From RM Require Import C08.Model C08.Proofs C08.IndexProofs C08.WinModel C08.WinProofs C08.Driver Gen.C08Tables C08.Tie C08.EndToEnd.
+From RM Require Import C08.Model C08.Proofs C08.IndexProofs C08.WinModel C08.WinProofs C08.Driver Gen.C08Tables C08.Tie C08.EndToEnd C08.StreamRead.
 Open Scope Z_scope.
 
 (* Building never fails: the final RangeMap::try_from_iter(vec).unwrap() discards
@@ -407,3 +407,35 @@ Example c08_nonvacuous_end_to_end :
   u64_ents ents /\
   g_indexed_table (g_mr_MinidumpModule Debug) ents = Ret [((5, 14), 0); ((20, 20), 3); ((18446744073709551600, 18446744073709551614), 5)].
 Proof. cbv zeta. split; [repeat constructor; cbn; discriminate|vm_compute; reflexivity]. Qed.
+
+(* ================================================================== round 5, second pass *)
+
+(* MinidumpUnloadedModuleList::read from the raw (base_of_image, size_of_image) fields of the stream, through the guard
+   GENERATED from its source (g_unloaded_read_bad), the generated memory_range() and from_modules: never a trap in either
+   profile; the read returns Err exactly when some raw module has a zero size or reaches past the address space (and
+   then names such a module); otherwise every module has a valid range, the table is sorted and modules_at_address
+   returns exactly the indices of the modules with base <= x < base + size. *)
+Theorem c08_end_to_end_unloaded_read : forall p ents, u64_ents ents ->
+  (g_unloaded_read p ents = Ret None /\ exists b s, In (b, s) ents /\ (s = 0 \/ two64 <= b + s)) \/
+  (exists t, g_unloaded_read p ents = Ret (Some t) /\
+     (forall b s, In (b, s) ents -> s <> 0 /\ b + s < two64) /\
+     StronglySorted (fun a b => range_lt (fst b) (fst a) = false) t /\
+     forall x i, In i (unloaded_at t x) <->
+       0 <= i /\ exists b s, nth_error ents (Z.to_nat i) = Some (b, s) /\ b <= x < b + s).
+Proof. exact unloaded_read_end_to_end. Qed.
+Print Assumptions c08_end_to_end_unloaded_read.
+
+(* ... and it is the hand-written model that the correspondence run compares with the code (Driver.run_case kind 9) *)
+Theorem c08_gen_unloaded_read : forall p ents, u64_ents ents ->
+  g_unloaded_read p ents = Ret (unloaded_read ents) /\
+  (forall b s, u64 b -> u64 s -> g_unloaded_read_bad p b s = Ret (negb (module_read_keep b s))).
+Proof. intros p ents H. split; [exact (g_unloaded_read_eq p ents H)|exact (g_unloaded_read_bad_eq p)]. Qed.
+Print Assumptions c08_gen_unloaded_read.
+
+Example c08_nonvacuous_unloaded_read :
+  let good := [(5, 10); (7, 2); (18446744073709551600, 15)] in
+  u64_ents good /\ u64_ents ((0, 0) :: good) /\
+  g_unloaded_read Debug good = Ret (Some [((5, 14), 0); ((7, 8), 1); ((18446744073709551600, 18446744073709551614), 2)]) /\
+  g_unloaded_read Debug ((0, 0) :: good) = Ret None /\
+  g_unloaded_read Release (good ++ [(18446744073709551615, 1)]) = Ret None.
+Proof. cbv zeta. split; [|split]; [repeat constructor; cbn; discriminate..|repeat split; vm_compute; reflexivity]. Qed.
